@@ -384,6 +384,7 @@ func init() {
 	}
 	V["EnvTicks"] = func(ip *Interp, fn *ssa.Function, args []Value) Value {
 		ip.conc.envTicks = int(termArg(args[0]).bv)
+		ip.syncRelease(ip.conc) // the environment fires timers after what the harness did so far
 		// granting timer firings changes what every goroutine waiting on a timer can do: depends on everything
 		ip.schedPoint("EnvTicks")
 		return nil
